@@ -151,6 +151,14 @@ def jobs(tier, seed):
                 out.append(_j(f'2street-{n}p-{boards}b-rake',
                               C.custom(stacks, TWO, hand_types=HILO, antes=1, boards=boards, plan=plan,
                                        rake=('pct', 1, 4, 1, False))))
+    # a deck with ranks outside the low: a player can be beaten for high and have no low on one board and still win on another
+    WIDE = ['As', 'Ks', 'Qs', 'Js', '2s', '2h']
+    for stacks in [(3, 4), (2, 3, 5)]:
+        n = len(stacks)
+        plans = [list(p) + [c for c in WIDE if c not in p] for p in permutations(WIDE, n + 2)]
+        for plan in plans[::1 if (th or n == 2) else 3]:
+            out.append(_j(f'2street-{n}p-2b-hilo-wide-deck',
+                          C.custom(stacks, TWO, deck=WIDE, hand_types=('HighCardAny', 'JQLow'), antes=1, boards=2, plan=plan)))
     for j in out:
         j.setdefault('state_cap', 200000)
         j.setdefault('time_cap', 120)
